@@ -31,6 +31,23 @@ def crash_programs(rng, n, thorough, kind, ck=None):
         P.append(p)
     for nanno in [0, 3, 11, 40, 230] + ([rng.randint(1, 300) for _ in range(40)] if thorough else []):
         P.append(nofsr_program(rng, len(P) + 1, kind, thorough, nanno))
+    # definitions directly followed by chunks of several KiB: a torn big chunk leaves a long tail behind a definition
+    # that the open has already taken in before it looks for the last complete chunk
+    for k in range(3 if thorough else 1):
+        lit = progs.lit
+        ops = [{"op": "wopen", "twr": False},
+               {"op": "source", "id": 1, "name": lit("src1"), "vendor": None, "model": None, "version": None, "serial": None},
+               {"op": "userdata", "meta": 1, "stype": 1, "data": ["rep", 4000 + 8 * k, 11 + k]},
+               {"op": "source", "id": 3, "name": lit("src3"), "vendor": lit("v"), "model": None, "version": None, "serial": None},
+               {"op": "userdata", "meta": 2, "stype": 1, "data": ["rep", 2500 + k, 12 + k]},
+               {"op": "anno", "sig": 0, "ts": 5, "atype": 1, "group": 0, "stype": 1, "ybits": 0, "data": ["rep", 3000, 13 + k]},
+               {"op": "source", "id": 7, "name": lit("src7"), "vendor": None, "model": None, "version": None, "serial": None},
+               {"op": "userdata", "meta": 3, "stype": 1, "data": ["rep", 5000, 14 + k]},
+               {"op": "wclose"},
+               {"op": "truncscan", "file": "a", "count": 60, "seed": 77 + k},
+               {"op": "ropen"}, {"op": "sources"}, {"op": "signals"}, {"op": "annos", "sig": 0, "t": 0}, {"op": "userdatas"}, {"op": "unchanged"}, {"op": "rclose"}]
+        P.append({"x": len(P) + 1, "kind": kind, "feat": ["no-fsr", "def-then-big"], "ops": ops, "model": {"sigs": {}},
+                  "crash": {"bytes": "step8", "stride": 1, "all_max": 40, "budget": 3000}})
     if ck is not None:
         # histories from the shape graph (spec/JlsShapes.tla): every combination of present / absent tracks
         import shapes
